@@ -33,6 +33,7 @@ Fixpoint numbering (acts : list act) (next : N) : list numbered :=
   | [] => []
   | APeerNum n :: r => numbering r n
   | ALogon :: r => mkNum next [65] false :: numbering r (next + 1)
+  | ALogonR y :: r => let n := if y then 1 else next in mkNum n [65] false :: numbering r (n + 1)
   | AMsg lost t _ :: r => mkNum next t lost :: numbering r (next + 1)
   | _ :: r => numbering r next
   end.
@@ -132,6 +133,7 @@ Fixpoint scn_conformant (acts : list act) (logged : bool) : bool :=
   | ASess _ (OStart _ _) :: r => scn_conformant r false
   | ASess _ ORestart :: r => scn_conformant r false
   | ALogon :: r => negb logged && scn_conformant r true
+  | ALogonR _ :: r => negb logged && scn_conformant r true
   | AMsg false _ _ :: r => logged && scn_conformant r logged
   | _ :: r => scn_conformant r logged
   end.
@@ -194,7 +196,7 @@ Fixpoint classify (c : cst) (ops : list op) (tr : trace) : N :=
       | raw :: _ =>
         let q := match fieldN T_MsgSeqNum raw with Some q => q | None => 0 end in
         if beq (msg_type_of raw) [65] && (c_state c =? 3 (* wait_for_logon *) ) || beq (msg_type_of raw) [65] && (c_state c =? 5 (* logon_sent *)) then
-          if logon_expects c <? q then 1 else classify (observe c false st) ops' tr'
+          if (if beq (match tok_get (dec T_ResetSeqNumFlag) (tokens raw) with Some v => v | None => [] end) [89] then 1 else logon_expects c) <? q then 1 else classify (observe c false st) ops' tr'
         else if c_gap c then
           (* this burst answers the ResendRequest *)
           if existsb is_gapfill msgs then classify (observe c false st) ops' tr' else 2
